@@ -79,7 +79,7 @@ macro_rules! c05_btm {
 c05_btm! {c05_bytes_trim_matches, 5, 2, quick}
 
 harness! {
-    /// kind=bounded tier=thorough bound="input<=6 bytes, needle<=3 bytes, all byte values"
+    /// kind=bounded tier=quick bound="input<=6 bytes, needle<=3 bytes, all byte values"
     #[kani::unwind(9)]
     fn c05_bytes_trim_matches_big(s) {
         let h: [u8; 6] = s.bytes();
